@@ -187,3 +187,95 @@ def scn_sum(ts):
 
 SCENARIOS = [Scenario('C17/PGPKey.verify[detached,%s]' % k, 'pgpy.pgp.PGPKey.verify', verify_block(k), props=('C17', 'C01', 'C16'))
              for k in ('uid', 'bytes')]
+
+
+# ---------------------------------------------------------------------------------------------------
+# where the disqualifying bits come from: PGPKey.check_management / check_soundness / check_primitives
+def key_conditions():
+    label = 'C17/PGPKey.check_management+check_soundness'
+
+    def gen(repo):
+        obls, funcs, paths = [], [], 0
+        KEY = 'pgpy.pgp.PGPKey'
+        for self_verifying in (False, True):
+            r = scn.Run(repo, KEY, 'check_management', label + '[management,self_verifying=%s]' % self_verifying)
+            ex, st = r.ex, r.st
+            sv = z3.Int('self_verified_issues')
+            expired = z3.Bool('key_is_expired')
+            nrev = z3.Bool('has_revocation_signature')
+            st.pc += [sv >= 0, sv < 2048]
+            me = E.VObj(KEY, 'key')
+            r.hook(KEY, 'self_verified', scn.const(E.VInt(sv, enum=SI)))
+            r.hook(KEY, 'is_expired', scn.const(E.VBool(expired)))
+            r.hook(KEY, 'expires_at', scn.const(E.VExt('datetime', ())))
+
+            def revs(ex, st, o, a):
+                s2 = st.clone()
+                st.pc.append(nrev)
+                s2.pc.append(z3.Not(nrev))
+                return [(st, ex.new_list(st, [E.VObj('pgpy.pgp.PGPSignature', 'rev')])), (s2, ex.new_list(s2, []))]
+            r.hook(KEY, 'revocation_signatures', revs)
+            for pi, (s, v) in enumerate(r.call(me, [E.VBool(self_verifying)])):
+                paths += 1
+                if isinstance(v, E.Raise):
+                    r.oblige(s, 'safety(%s)/p%d' % (v.exc, pi), z3.BoolVal(False), v.where)
+                    continue
+                res = ex_int(v)
+                bit = lambda x, i: (x / (2 ** i)) % 2 == 1
+                r.oblige(s, 'expired-key-always-reports-Expired-whatever-else-is-true/p%d' % pi, z3.Implies(expired, bit(res, 1)))
+                r.oblige(s, 'keeps-every-issue-of-the-self-signature-check/p%d' % pi, z3.And(*[z3.Implies(bit(sv, i), bit(res, i)) for i in range(11)]))
+                r.oblige(s, 'adds-only-Expired-and-Revoked/p%d' % pi,
+                         z3.And(*[z3.Implies(bit(res, i), bit(sv, i)) for i in range(11) if i not in (1, 3)]))
+                r.oblige(s, 'Expired-only-if-expired-or-already-reported/p%d' % pi, z3.Implies(bit(res, 1), z3.Or(expired, bit(sv, 1))))
+            res_ = r.result()
+            obls += res_['obligations']
+            funcs += res_['funcs']
+        # check_soundness = management | primitives (no disqualifying bit is lost by combining)
+        r = scn.Run(repo, KEY, 'check_soundness', label + '[soundness]')
+        ex, st = r.ex, r.st
+        m, p = z3.Ints('management_issues primitive_issues')
+        st.pc += [m >= 0, m < 2048, p >= 0, p < 2048]
+        r.hook(KEY, 'check_management', scn.mconst(E.VInt(m, enum=SI)))
+        r.hook(KEY, 'check_primitives', scn.mconst(E.VInt(p, enum=SI)))
+        for pi, (s, v) in enumerate(r.call(E.VObj(KEY, 'key'), [E.VBool(z3.Bool('self_verifying'))])):
+            paths += 1
+            if isinstance(v, E.Raise):
+                r.oblige(s, 'safety(%s)/p%d' % (v.exc, pi), z3.BoolVal(False), v.where)
+                continue
+            r.oblige(s, 'union-of-management-and-primitive-issues/p%d' % pi, ex_int(v) == bits_or(m, p))
+        res_ = r.result()
+        return {'obligations': obls + res_['obligations'], 'funcs': funcs + res_['funcs'], 'paths': paths}
+    return Scenario(label, 'pgpy.pgp.PGPKey.check_management', gen, props=('C17',))
+
+
+def validate_params():
+    """PubKeyAlgorithm.validate_params returns only advisory bits (never a disqualifying one)"""
+    label = 'C17/PubKeyAlgorithm.validate_params'
+
+    def gen(repo):
+        obls, funcs, paths = [], [], 0
+        PA = repo.enum_members('pgpy.constants.PubKeyAlgorithm')
+        CUR = repo.enum_members('pgpy.constants.EllipticCurveOID') if 'pgpy.constants.EllipticCurveOID' in repo.classes else {}
+        for name, val in sorted(PA.items(), key=lambda kv: kv[1]):
+            r = scn.Run(repo, 'pgpy.constants.PubKeyAlgorithm', 'validate_params', label + '[%s]' % name)
+            ex, st = r.ex, r.st
+            size = z3.Int('key_size')
+            st.pc += [size >= 0, size <= 65536]
+            try:
+                outs = r.call(E.VInt(val, enum='pgpy.constants.PubKeyAlgorithm'), [E.VInt(size)])
+            except E.ToolLimit:
+                raise
+            for pi, (s, v) in enumerate(outs):
+                paths += 1
+                if isinstance(v, E.Raise):
+                    r.oblige(s, 'safety(%s)/p%d' % (v.exc, pi), z3.BoolVal(False), v.where)
+                    continue
+                r.oblige(s, 'only-advisory-bits/p%d' % pi, z3.Not(_failing(ex_int(v))))
+            res_ = r.result()
+            obls += res_['obligations']
+            funcs = res_['funcs']
+        return {'obligations': obls, 'funcs': funcs, 'paths': paths}
+    return Scenario(label, 'pgpy.constants.PubKeyAlgorithm.validate_params', gen, props=('C17',))
+
+
+SCENARIOS += [key_conditions(), validate_params()]
